@@ -194,7 +194,7 @@ func (p *cparser) expectOp(s string) error {
 }
 
 func (p *cparser) parseExpr() (CExpr, error) {
-	if p.isID("forall") || p.isID("exists") {
+	if p.isQuant() {
 		return p.parseQuant()
 	}
 	return p.parseIff()
@@ -278,7 +278,7 @@ func (p *cparser) parseImp() (CExpr, error) {
 	if p.isOp("==>") {
 		p.next()
 		var r CExpr
-		if p.isID("forall") || p.isID("exists") {
+		if p.isQuant() {
 			r, err = p.parseQuant()
 		} else {
 			r, err = p.parseImp()
@@ -315,7 +315,7 @@ func (p *cparser) parseAnd() (CExpr, error) {
 	for p.isOp("&&") {
 		p.next()
 		var r CExpr
-		if p.isID("forall") || p.isID("exists") {
+		if p.isQuant() {
 			r, err = p.parseQuant()
 		} else {
 			r, err = p.parseCmp()
@@ -481,7 +481,7 @@ func (p *cparser) parsePrimary() (CExpr, error) {
 	t := p.cur()
 	switch t.kind {
 	case "id":
-		if t.text == "forall" || t.text == "exists" {
+		if p.isQuant() {
 			return p.parseQuant()
 		}
 		p.next()
@@ -506,4 +506,13 @@ func (p *cparser) parsePrimary() (CExpr, error) {
 		}
 	}
 	return nil, fmt.Errorf("unexpected %q at %d", t.text, t.pos)
+}
+
+// isQuant: `forall`/`exists` start a quantifier only when followed by a
+// variable name (so a parameter called `exists` stays usable).
+func (p *cparser) isQuant() bool {
+	if !(p.isID("forall") || p.isID("exists")) {
+		return false
+	}
+	return p.p+1 < len(p.toks) && p.toks[p.p+1].kind == "id" && p.toks[p.p+1].text != "in"
 }
